@@ -1,5 +1,36 @@
 """C17 — file imports cannot escape the configured root directory."""
+import os
+import re
+import subprocess
+
 import checklib
+
+GEN = os.path.join(checklib.LEAN, "Ecal", "Gen", "C17.lean")
+
+
+def extract(ctx):
+    """regenerate lean/Ecal/Gen/C17.lean (where the Root of every FileImportLocator literal comes from) from the
+    tree under test. A root the extractor cannot follow is neither an error nor an alarm: it is listed as
+    `unknown`, noted in the evidence, and the harness (which repeats the extraction) amplifies the T / J cases."""
+    binp = checklib.go_build(ctx)
+    previous = open(GEN).read() if os.path.exists(GEN) else None
+    if previous is not None:
+        os.remove(GEN)
+    p = subprocess.run([binp, "C17", "-tool", "extract", GEN], stdout=subprocess.PIPE, stderr=subprocess.STDOUT, text=True,
+                       env=dict(checklib.GOENV, VERIF_REPO=checklib.REPO), cwd=ctx.work, timeout=120)
+    if p.returncode != 0 or not os.path.exists(GEN):
+        if previous is None:
+            raise checklib.CheckError("C17: no generated facts and the extractor failed: " + p.stdout[-500:])
+        open(GEN, "w").write(previous)
+        ctx.notes.append("C17 facts NOT regenerated (extractor failed: %s); the committed Gen/C17.lean was used, cases amplified"
+                         % " ".join(p.stdout.split())[:300])
+        return
+    rows = [l.split("\t") for l in p.stdout.splitlines() if l.count("\t") >= 2]
+    ctx.coverage["locator_roots"] = [{"site": r[0], "root": r[1], "verdict": r[2], "why": (r[3] if len(r) > 3 else "")} for r in rows]
+    for r in rows:
+        if r[2] != "configured":
+            ctx.notes.append("locator root %s at %s: %s (%s)" % (r[1], r[0], r[2], r[3] if len(r) > 3 else ""))
+    ctx.log("locator roots:", "; ".join("%s <- %s [%s]" % (r[0].split(":")[-1], r[1], r[2]) for r in rows))
 
 
 def _s(h):
@@ -11,6 +42,19 @@ def decode(p):
     try:
         if f[0] == "P":
             return {"kind": "Clean(a), Join(a,b), Rel(a,b)", "a": _s(f[1]), "b": _s(f[2])}
+        if f[0] == "J":
+            return {"kind": "import statement in a program parsed under a source name", "cwd": "B/" + _s(f[1]),
+                    "locator_root": _s(f[3]), "root_is": "B/" + _s(f[4]), "source_name": _s(f[5]), "import_path": _s(f[6]),
+                    "files (pos>inner = module importing inner)": _s(f[2]).split(",")}
+        if f[0] == "T":
+            d = {"kind": "cli/tool: CLIInterpreter{Dir}.CreateRuntimeProvider + entry file with the import statement",
+                 "cwd": "B/" + _s(f[1]), "configured_dir": _s(f[3]), "model_root": _s(f[4]), "root_is": "B/" + _s(f[5]),
+                 "path_prefix": None if f[6] == "~" else _s(f[6]), "depth": int(f[7]),
+                 "tree_also_has": "top/dlink -> nowhere (dangling), top/lnin -> root/sub, top/lnout -> ../abs"}
+            if d["depth"]:
+                d["then_every_sequence_of_depth_elements_from"] = _s(f[8]).split(",")
+            d["files"] = _s(f[2]).split(",")
+            return d
         d = {"kind": "Resolve" if f[0] == "R" else "import statement", "cwd": "B/" + _s(f[1]), "root": _s(f[3]),
              "root_is": "B/" + _s(f[4]), "path_prefix": None if f[5] == "~" else _s(f[5]), "depth": int(f[6])}
         if d["depth"]:
@@ -27,7 +71,7 @@ def post(ctx, cases, gores, model):
     by_file = {}
     for i in sorted(cases, key=lambda i: (len(cases[i]), i)):
         g = gores.get(i, "")
-        if cases[i][0] in "RI" and any(x.startswith("O") for x in g.split(",")):
+        if cases[i][0] in "RIJT" and any(x.startswith("O") for x in g.split(",")):
             n += 1
             for x in g.split(","):
                 if x.startswith("O"):
@@ -40,9 +84,9 @@ def post(ctx, cases, gores, model):
     ctx.coverage["outside_results"] = n
     if by_file:
         ctx.coverage["outside_by_file"] = by_file
-    ctx.coverage["paths_resolved"] = sum(len(g.split(",")) for i, g in gores.items() if cases.get(i, " ")[0] in "RI")
+    ctx.coverage["paths_resolved"] = sum(len(g.split(",")) for i, g in gores.items() if cases.get(i, " ")[0] in "RIJT")
     ctx.coverage["files_opened_inside"] = sum(sum(1 for x in g.split(",") if x.startswith("I"))
-                                              for i, g in gores.items() if cases.get(i, " ")[0] in "RI")
+                                              for i, g in gores.items() if cases.get(i, " ")[0] in "RIJT")
 
 
 SPEC = dict(
@@ -56,16 +100,26 @@ SPEC = dict(
           "<=5 (quick) / <=6 (thorough) elements over {nm,.,..,'',/nm,a.b,'a b',..x,rootX,root} (one line = one prefix with "
           "all 100 two-element continuations) plus random longer paths with arbitrary bytes; (c) I lines = the same through "
           "`import \"<path>\" as x` in the interpreter. Compared: which file's content came back (inside / OUTSIDE) or error, "
-          "per path. Non-trivial = a P line, or an R/I line on which at least one path opens an existing file."),
+          "per path. (d) T lines = the real cli/tool: CLIInterpreter{Dir}.CreateRuntimeProvider then an entry file with the import "
+          "statement through LoadInitialFile, Dir in {existing, MISSING, a file, DANGLING symlink, symlink to a directory inside / "
+          "outside (modelled as its target), '', '.'} from working directories that hold sentinel files: with a missing / dangling "
+          "root every import must fail. (e) J lines = import statements in entry programs parsed under source NAMES {plain, with "
+          "directories, starting with '..', absolute, equal to files outside the root, ''} x import paths (plain, './', '../' "
+          "prefixed, leading to module files that import again) x 18 roots. A regenerated source fact (where every "
+          "FileImportLocator literal's Root comes from; three-valued) is a Lean obligation; a root that is not established "
+          "amplifies (d) and (e). Non-trivial = a P line, or another line on which at least one path opens an existing file."),
     exhaustive="all element sequences up to the stated length for every listed root spelling; all pairs for the primitives",
     trusted_base=[
         "the kernel's path walk agrees with the lexical walk on cleaned paths in a tree without symbolic links (the harness's tree has none)",
         "ioutil.ReadFile opens exactly the string it is given",
+        "go/ast extractor of the locator-root fact (go/cmd/harness/c17tool.go): table of (value, error) library functions; "
+        "follows local definitions and same-package calls; anything else is reported as unknown, never as a negative",
     ],
     assumptions=["no symbolic links below or above the root (the property is lexical)",
                  "Unix path semantics (separator '/', no volume names)"],
     decode=decode,
     post=post,
+    extract=extract,
 )
 
 META = dict(
